@@ -259,7 +259,7 @@ def h_upload_result(r):
         if r.random() < 0.5:
             a["ip"] = "%d.%d.%d.%d" % tuple(r.randint(1, 254) for _ in range(4))
         if r.random() < 0.4:
-            a["resume"] = str(r.choice([1, 1024, r.randint(1, 10 ** 6)]))
+            a["resume"] = str(r.choice([0, 1, 1024, r.randint(0, 10 ** 6)]))
         kid = ("encr_media", a, [], None)
     return _iq_result(r, S, [kid])
 
